@@ -232,6 +232,8 @@ func replayConnCaseMode(kr *keyring, c *connCase, parked, byref, latewrite bool)
 			}
 		case "CH2outerSni":
 			h = sealedHello(setExt(stdOuter, "sni", "other"), stdInner, empty, 7, "s1", true)
+		case "CH2noEchNo13":
+			h = &aHello{Sid: "s1", Exts: setExt(dropExt(stdOuter, "ech"), "sv", "12"), Pad: "none", Ech: aEch{Type: "none"}}
 		case "CH2no13":
 			h = sealedHello(setExt(stdOuter, "sv", "12"), stdInner, empty, 7, "s1", true)
 		case "CH2innerType":
@@ -248,6 +250,8 @@ func replayConnCaseMode(kr *keyring, c *connCase, parked, byref, latewrite bool)
 		"ZERO":    {22, 3, 3, 0, 0},
 		"ZEROAPP": {23, 3, 3, 0, 0},
 		"SHbad":   {22, 3, 3, 0, 5, 2, 0, 0, 1, 0},
+		// a TLS 1.2 ServerHello: version, random, 32-byte session id, cipher suite, compression - and no extensions block
+		"SH12": append(append([]byte{22, 3, 3, 0, 74, 2, 0, 0, 70, 3, 3}, bytes.Repeat([]byte{0x21}, 32)...), append(append([]byte{32}, bytes.Repeat([]byte{0x22}, 32)...), 0xc0, 0x2f, 0)...),
 	}
 	serverHello := func(hrr bool) []byte {
 		b := []byte{3, 3}
@@ -427,6 +431,7 @@ func replayConnCaseMode(kr *keyring, c *connCase, parked, byref, latewrite bool)
 				if err != nil || n != len(rec) || !bytes.Equal(got, rec) {
 					return fmt.Sprintf("step %d write %s: spec says forwarded; code n=%d err=%v forwarded=%x", i+1, sym, n, err, got)
 				}
+			case "any": // unspecified: refused or forwarded
 			case "werr":
 				if err == nil || len(got) != 0 {
 					return fmt.Sprintf("step %d write %s: spec says rejected and not forwarded; code err=%v forwarded %d bytes", i+1, sym, err, len(got))
